@@ -7,6 +7,9 @@ open Lean Mcp.Drv Mcp.Middleware
   Op lines
     {"c":"middleware.run","tr":"streamable"|"sse","opts":[[stage,…],…],"core":core,"hobs":bool,"mods":[…]}
     {"c":"middleware.notify","tr":…,"opts":[[stage,…],…]}
+  optional in run: "order":["mw:0","WithSSEServerLogger","mw:1","mw:empty",…] — the full option order of the constructor call:
+    "mw:<i>" = the middleware option opts[i], "mw:empty" = a middleware option without arguments, anything else = another
+    option of that name. With it the model registers through `serveX … codeWriters` (the regenerated writers of the handler field).
   stage = {"id":n,"b":"pass"|"modReq"|"modRes"} | {"id":n,"b":"shortOk","r":n} | {"id":n,"b":"shortRpc","code":i,"msg":s}
         | {"id":n,"b":"fail","e":s}
   core  = {"k":"ok","echo":bool} | {"k":"rpc","code":i,"msg":s} | {"k":"err","e":s}     (the method handler, measured
@@ -48,6 +51,17 @@ def coreOfJson (j : Json) : Except String (Req → Out) := do
     pure (fun _ => .err e)
   | k => throw s!"core {k}"
 
+def optOfStr (groups : List (List Stage)) (s : String) : Except String Opt :=
+  if s == "mw:empty" then pure (.mw [])
+  else if s.startsWith "mw:" then
+    match (s.drop 3).toNat? with
+    | some i =>
+      match groups[i]? with
+      | some g => pure (.mw g)
+      | none => throw s!"order: no middleware option {i}"
+    | none => throw s!"order entry {s}"
+  else pure (.other (Mcp.Str.ofString s))
+
 def trOfStr : String → Except String Transport
   | "streamable" => pure .streamable
   | "sse" => pure .sse
@@ -80,7 +94,13 @@ def handle (op : String) (j : Json) : Except String Json := do
     let h ← coreOfJson (← j.getObjVal? "core")
     let hobs ← getBool j "hobs"
     let mods ← natList j "mods"
-    let (t, r) := serve codeFacts tr opts h (.request { mods := mods })
+    let (t, r) ← match j.getObjVal? "order" with
+      | .ok (Json.arr os) => do
+        let xs ← os.toList.mapM (fun o => do optOfStr opts (← o.getStr?))
+        -- every middleware option must occur exactly once, in order (otherwise the line is not a constructor call)
+        if Opt.groups xs |>.filter (· ≠ []) |> (· ≠ opts.filter (· ≠ [])) then throw "order: does not list the middleware options in order"
+        pure (serveX codeFacts codeWriters tr xs h (.request { mods := mods }))
+      | _ => pure (serve codeFacts tr opts h (.request { mods := mods }))
     pure (Json.mkObj [("trace", Json.arr ((visible hobs t).map evJ).toArray), ("resp", respJ r)])
   | "notify" =>
     let tr ← trOfStr (← getStr j "tr")
